@@ -18,7 +18,14 @@ and READ by laspy.read(stream) and by a sample of all other ways of opening (byt
 laspy.open / LasReader with EVLRs loaded at opening or deferred to read() / read_evlrs() -- directly, after
 chunk_iterator, read_points, seek --, LasHeader.read_from, laspy.mmap, sources that cannot seek); all against the file
 model (header fields that locate the records, record bytes, the whole file for append sessions, records read by each
-route); (c) the dispatch table; (d) serialisation of user-built classification lookups.
+route); (c) the dispatch table; (d) serialisation of user-built classification lookups; (e) OPERATIONS BETWEEN READING AND
+WRITING (mode "ops"): what was read (a file by laspy.read, or a list by VLRList.read_from) goes through a sequence of
+operations that re-synchronise or rebuild the VLR list of the header (add / remove extra dimensions, las.vlrs = / header.vlrs =
+in every form, laspy.convert, the point_format setter, set_version_and_point_format, update_header, selection las[...], the
+points setter, a new LasData on the same / a copied header) and of EDITS of the content of parsed records through their
+public attributes (every known class: shorter / longer / a proper prefix of the old value / empty / unrelated / same length /
+stripped; entries added and removed), then is written by one of the ways of writing (or left by an append session) and
+read: after every operation the lists against header_op / set_content of the model, what is written against the model.
 Search: the property stated on the implementation alone, on the same runs (every generation holds the lists that were
 attached; every route reads what laspy.read(stream) reads; a refused append session leaves the file's records alone)
 plus a stream of valid non-ASCII UTF-8 text payloads (outside the model's text assumption)."""
@@ -34,14 +41,31 @@ ASSUMPTIONS = [
     "ASCII text plus bytes that are invalid in every UTF-8 position (0xC0, 0xC1, 0xF8..0xFF) whose expected outcome is 'kept raw'; "
     "valid non-ASCII UTF-8 names/WKT are checked by the search oracle only (on the implementation, without the model)",
     "user ids and descriptions are printable ASCII without NUL, of every length up to the field width (the property's domain)",
-    "records owned by the file machinery: a LASF_Spec/4 record is placed in the VLR list of a real file only together with "
-    "the extra dimensions it describes (descriptors of every type 0..30, arbitrary options / no_data / min / max / scale / "
-    "offset bytes, ASCII names and descriptions, any position in the list); an extra-bytes record that contradicts the point "
-    "size (dropped with a warning, or the file is refused) and 'laszip encoded'/22204 in the VLR list (LasWriter pops the "
-    "first LasZipVlr) are not generated in files; both are exercised as EVLRs and through VLRList directly",
-    "list edits between generations go through the list API of las.vlrs / las.evlrs (and las.evlrs = VLRList(...)); the "
-    "header.vlrs setter and add_extra_dim(s) / remove_extra_dim(s), which regenerate the extra-bytes record by design, are "
-    "not part of the histories; laspy.convert (which regenerates that record too) is applied to files without extra dimensions",
+    "records owned by the file machinery: a LASF_Spec/4 record with a payload its parser ACCEPTS is placed in the VLR list of a "
+    "real file only together with the extra dimensions it describes (descriptors of every type 0..30, arbitrary options / "
+    "no_data / min / max / scale / offset bytes, ASCII names and descriptions, any position in the list); an extra-bytes record "
+    "that contradicts the point size (dropped with a warning, or the file is refused) and 'laszip encoded'/22204 in the VLR "
+    "list (LasWriter pops the first LasZipVlr) are not generated in files; both are exercised as EVLRs and through VLRList "
+    "directly. A LASF_Spec/4 record whose payload the parser REFUSES is kept raw and is an ordinary record of the file: it is "
+    "generated in VLR lists (mode 'ops'), alone, twice, next to the parsed one",
+    "the parsed extra-bytes record of a VLR list is regenerated from the point format by every operation that re-synchronises "
+    "the header (by design): after an operation the property asks for exactly one such record iff the file has extra "
+    "dimensions, naming them in order; its position in the list and its other descriptor bytes are not judged, and it is not "
+    "edited by hand; every OTHER record (parsed or raw, whatever its identifiers) must be the same object state, in order",
+    "the multi-generation histories (mode 'file') edit the lists through the list API of las.vlrs / las.evlrs (and las.evlrs = "
+    "VLRList(...)) and convert files without extra dimensions; the header.vlrs setter, add / remove_extra_dim(s), the "
+    "point_format setter and convert of files with extra dimensions are exercised by mode 'ops' (one more generation)",
+    "operations are applied to the LasData that laspy.read returned; which method of LasHeader an operation ends in is written "
+    "by hand (HEADER_METHOD: las.add_extra_dim(s) -> add_extra_dims, las.vlrs = -> vlrs, laspy.convert -> "
+    "set_version_and_point_format, update_header / selection / points setter -> update); whether that method re-synchronises "
+    "is read from the source on every run (resync_methods). After header.point_format = / set_version_and_point_format the "
+    "caller goes on with a LasData built over the header's new point format object (as laspy.convert does). A downgrade below "
+    "1.4 by laspy.convert loses the EVLRs of the FILE (documented); the list that lingers in memory meanwhile is not judged",
+    "edits of parsed content: ASCII text; lookup names without NUL of at most 15 bytes (a 16-byte name: the write must be "
+    "refused, never truncated); 'what the record says' is compared with what is read up to the normal form: WKT without its "
+    "trailing NULs, GeoAscii as the text joined by NUL (however it is cut into strings), GeoKeyDirectory as header words and "
+    "entries (number_of_keys is recomputed from the payload on reading; the field written is the one the record holds, "
+    "possibly stale); a record kept raw under official ids is edited to another payload its parser refuses",
     "append sessions edit the EVLR list only (the VLRs are written back in place and cannot change size); an append session on a "
     "file whose VLRs do not serialise to the room they have (a WKT record without its NUL, trailing bytes a parser drops) may be "
     "refused, but must leave the records of the file as they were; the model (append_file) refuses it before anything is written",
@@ -319,7 +343,7 @@ def gen_list(rng, n, file_vlr=False):
             rec = nearmiss_record(rng)
         else:
             rec = unknown_record(rng)
-        if file_vlr and rec[0] in (U_SPEC, U_LASZIP) and rec[1] in (4, 22204):
+        if file_vlr and rec[0] in (U_SPEC, U_LASZIP) and rec[1] in (4, 22204) and not (file_vlr == "raw4" and rec[4] == "extra/bad"):
             rec = unknown_record(rng)
         out.append(rec)
     return out
@@ -509,6 +533,8 @@ def gen_cases(ctx):
             case["make"] = "create"
         case["steps"] = gen_steps(rng, ver, fmt, any(r[4].startswith("extra/") for r in vl))
         cases.append(case)
+    # (b') operations between reading and writing
+    cases += gen_ops_cases(ctx)
     # (c) payload size boundaries (last: they are the expensive ones)
     for ext in (False, True):
         for size in (65535, 65536):
@@ -1337,6 +1363,13 @@ def api_views(l):
         c = l.copy()
         if len(c) != len(items) or any(a is not b for a, b in zip(c, items)):
             bad.append(f"copy() holds {len(c)} of {len(items)} records")
+        # a list that was handed out is the caller's: emptying it changes neither the list nor what the next call gives
+        for name, call in (("get_by_id()", lambda: l.get_by_id()), ("copy()", lambda: l.copy()),
+                           ("get(class)", lambda: l.get(type(items[0]).__name__) if items else [])):
+            n0 = len(call())
+            call().clear()
+            if len(call()) != n0 or len(l) != len(items) or any(a is not b for a, b in zip(l, items)):
+                bad.append(f"emptying the list {name} returned changed the list or the next result")
     except Exception as ex:  # noqa
         bad.append(f"{type(ex).__name__}: {ex}"[:200])
     return bad
@@ -1353,17 +1386,14 @@ def lists_after(data):
         return {"err": f"{common.exc_kind(ex)}: {type(ex).__name__}: {ex}"[:200]}
 
 
-def run_file(case):
-    """-> {"gens": [generation]}; generation = {"werr"} | {"file0", "file", "hs", "loc0", "loc", "rerr" | ("vl", "el",
-    "npts", "hdr", "routes")}; the run ends with the first write that is refused, the first file that cannot be read,
-    or a "skipped" note"""
+def build_las(case):
+    """the LasData (with the VLRs of the case attached) and the EVLR list of the first generation"""
     import laspy
     import numpy as np
     from laspy.vlrs.known import ExtraBytesVlr
-    from laspy.vlrs.vlrlist import VLRList
     _PTYPES[0], _PTYPES[1] = bool(case.get("ptypes")), 0
     header = laspy.LasHeader(point_format=case["fmt"], version=case["version"])
-    eb = [r for r in case["recs"] if r[4].startswith("extra/")]
+    eb = [r for r in case["recs"] if r[4] == "extra/wf"]
     if eb:
         # the extra dimensions the record describes; the record laspy generates for them is replaced by the one of the case
         v = ExtraBytesVlr()
@@ -1378,6 +1408,15 @@ def run_file(case):
         las.vlrs.extract("ExtraBytesVlr")
     las.vlrs.extend(mk_vlrs(case["recs"]))
     evl = mk_vlrs(case["erecs"]) if case["erecs"] is not None else None
+    return las, evl
+
+
+def run_file(case):
+    """-> {"gens": [generation]}; generation = {"werr"} | {"file0", "file", "hs", "loc0", "loc", "rerr" | ("vl", "el",
+    "npts", "hdr", "routes")}; the run ends with the first write that is refused, the first file that cannot be read,
+    or a "skipped" note"""
+    import laspy
+    las, evl = build_las(case)
     res = {"gens": []}
     routes = case.get("routes")
     try:
@@ -1422,8 +1461,561 @@ def run_file(case):
     return res
 
 
+# ---------------------------------------------------------------------------------
+# operations between reading and writing: everything that re-synchronises or rebuilds the VLR list of a header, and
+# edits of the parsed content of known records
+# ---------------------------------------------------------------------------------
+EB_DIM_TYPES = ["u1", "i1", "u2", "i2", "u4", "i4", "u8", "i8", "f4", "f8", "2u1", "3f4", "3i2", "2f8", "3u8"]
+EDIT_HOWS = ["shorter", "longer", "prefix", "empty", "unrelated", "samelen", "rstrip"]
+CLS_OF_NAME = {"ClassificationLookupVlr": "lookup", "LasZipVlr": "laszip", "ExtraBytesVlr": "extra", "WaveformPacketVlr": "wave",
+               "GeoKeyDirectoryVlr": "geokeys", "GeoDoubleParamsVlr": "doubles", "GeoAsciiParamsVlr": "ascii",
+               "WktMathTransformVlr": "wktmath", "WktCoordinateSystemVlr": "wkt", "VLR": "raw"}
+# the operation of the case -> the method of LasHeader it ends in (the model decides from the source which of these
+# regenerate the extra-bytes record)
+HEADER_METHOD = {"add": "add_extra_dims", "rem": "remove_extra_dims", "setvlrs": "vlrs", "convert": "set_version_and_point_format",
+                 "pf": "point_format", "svpf": "set_version_and_point_format", "update_header": "update", "select": "update",
+                 "points": "update", "newlas": "", "hdrcopy": "", "edit": "", "relist": ""}
+
+
+def id_class(uid, rid):
+    """the short class name that goes with official ids (None: no known type)"""
+    if uid == U_SPEC:
+        return "lookup" if rid == 0 else "extra" if rid == 4 else "wave" if 100 <= rid <= 355 else None
+    if uid == U_PROJ:
+        return {34735: "geokeys", 34736: "doubles", 34737: "ascii", 2111: "wktmath", 2112: "wkt"}.get(rid)
+    if uid == U_LASZIP and rid == 22204:
+        return "laszip"
+    return None
+
+
+def edit_text(old, how, rng, alphabet=PRINTABLE, limit=None):
+    """a new value for a text (str) or a payload (bytes): shorter (not a prefix), longer, a proper prefix, empty,
+    unrelated, another one of the same length, trailing blanks stripped"""
+    isb = isinstance(old, (bytes, bytearray))
+    old = bytes(old) if isb else old
+
+    def fresh(n):
+        t = rtext(rng, n, alphabet)
+        return t if isb else t.decode("ascii")
+    if how == "empty":
+        new = old[:0]
+    elif how == "prefix":
+        new = old[:rng.choice([len(old) // 2, len(old) - 1, 1, rng.randrange(len(old))])] if old else old
+    elif how == "shorter":
+        new = old[1:] if rng.random() < 0.5 else old[:len(old) // 3] + old[len(old) // 3 + 1:]
+    elif how == "longer":
+        new = old + fresh(rng.choice([1, 2, 7, 30])) if rng.random() < 0.7 else fresh(1) + old
+    elif how == "samelen":
+        new = old[1:] + old[:1]
+        if new == old:
+            new = fresh(max(1, len(old)))
+    elif how == "rstrip":
+        # a text that ended with blanks / a newline, stripped (when it has none: its last character removed)
+        new = old.rstrip() if old.rstrip() != old else old[:-1]
+    else:
+        new = fresh(rng.choice([1, 3, 12, 40]))
+    if limit is not None:
+        new = new[:limit]
+    return new
+
+
+def edit_record(v, how, seed):
+    """one edit of the content of a record through its public attributes (in place); how: see EDIT_HOWS, "toolong"""
+    import ctypes
+    import random
+    from laspy.vlrs import known as K
+    rng = random.Random(seed)
+    n = type(v).__name__
+    if n in ("WktCoordinateSystemVlr", "WktMathTransformVlr"):
+        v.string = edit_text(v.string, how, rng)
+    elif n == "GeoAsciiParamsVlr":
+        ss = v.strings
+        if how == "empty":
+            if rng.random() < 0.5 or not ss:
+                v.strings = []
+            else:
+                ss[rng.randrange(len(ss))] = ""
+        elif how == "unrelated":
+            v.strings = [edit_text("", "unrelated", rng, NAME_CHARS) for _ in range(rng.choice([1, 2, 4]))]
+        elif how == "longer" and (rng.random() < 0.5 or not ss):
+            ss.append(edit_text("", "unrelated", rng, NAME_CHARS))
+        elif how == "shorter" and rng.random() < 0.5 and ss:
+            ss.pop(rng.randrange(len(ss)))
+        elif how == "prefix" and rng.random() < 0.3 and ss:
+            del ss[max(1, len(ss) // 2):]
+        elif ss:
+            i = rng.randrange(len(ss))
+            ss[i] = edit_text(ss[i], how, rng, PRINTABLE.replace(b"|", b""))
+    elif n == "ClassificationLookupVlr":
+        d = v.lookups
+        keys = list(d)
+        if how == "empty":
+            if rng.random() < 0.5 or not keys:
+                v.lookups = {}
+            else:
+                d[rng.choice(keys)] = ""
+        elif how == "unrelated":
+            v.lookups = {rng.randrange(256): edit_text("", "unrelated", rng, NAME_CHARS, 15) for _ in range(rng.choice([1, 2, 5]))}
+        elif how == "toolong":
+            v[keys[0] if keys else 3] = rtext(rng, 16, NAME_CHARS).decode()
+        elif how == "longer" and (rng.random() < 0.5 or not keys):
+            v[rng.choice([k for k in range(256) if k not in d])] = edit_text("", "unrelated", rng, NAME_CHARS, 15)
+        elif how == "shorter" and rng.random() < 0.5 and keys:
+            del d[rng.choice(keys)]
+        elif how == "prefix" and rng.random() < 0.3 and keys:
+            for k in keys[max(1, len(keys) // 2):]:
+                del d[k]
+        elif keys:
+            k = rng.choice(keys)
+            d[k] = edit_text(d[k], how, rng, NAME_CHARS, 15)
+    elif n == "GeoDoubleParamsVlr":
+        ds = v.doubles
+        x = rng.choice([0.0, -1.5, 1e300, 6378137.0, rng.random()])
+        if how == "empty":
+            v.doubles = []
+        elif how == "unrelated":
+            v.doubles = [ctypes.c_double(rng.random() * 1000) for _ in range(rng.choice([1, 3]))]
+        elif how == "longer" or not ds:
+            ds.append(ctypes.c_double(x))
+        elif how == "shorter":
+            ds.pop(rng.randrange(len(ds)))
+        elif how == "prefix":
+            del ds[len(ds) // 2:]
+        elif rng.random() < 0.5:
+            ds[rng.randrange(len(ds))].value = x
+        else:
+            ds[rng.randrange(len(ds))] = ctypes.c_double(x)
+    elif n == "ExtraBytesVlr":
+        ss = v.extra_bytes_structs
+
+        def struct():
+            return K.ExtraBytesStruct(name=rtext(rng, rng.choice([1, 8, 32]), NAME_CHARS), data_type=rng.randrange(1, 31),
+                                      description=rtext(rng, rng.choice([0, 5, 32]), NAME_CHARS))
+        if how == "empty":
+            v.extra_bytes_structs = []
+        elif how == "unrelated":
+            v.extra_bytes_structs = [struct() for _ in range(rng.choice([1, 2]))]
+        elif how == "longer" or not ss:
+            ss.append(struct())
+        elif how == "shorter":
+            ss.pop(rng.randrange(len(ss)))
+        elif how == "prefix":
+            del ss[len(ss) // 2:]
+        else:
+            s = ss[rng.randrange(len(ss))]
+            f = rng.choice(["name", "description", "data_type", "options", "scale"])
+            if f in ("name", "description"):
+                setattr(s, f, edit_text(bytes(getattr(s, f)), rng.choice(EDIT_HOWS), rng, NAME_CHARS, 32))
+            elif f == "scale":
+                s.data_type = s.data_type or 1
+                s.scale = [rng.choice([0.5, 2.0, 1e-3])] * 3
+            else:
+                setattr(s, f, rng.randrange(1, 31))
+    elif n == "WaveformPacketVlr":
+        if how == "unrelated":
+            v.parsed_record = K.WaveformPacketStruct(bits_per_sample=rng.choice([8, 16]), waveform_compression_type=0,
+                                                     number_of_samples=rng.randrange(1 << 32), temporal_sample_spacing=rng.randrange(1000),
+                                                     digitizer_gain=rng.random(), digitizer_offset=-rng.random())
+        else:
+            f = rng.choice(["bits_per_sample", "waveform_compression_type", "number_of_samples", "temporal_sample_spacing", "digitizer_gain", "digitizer_offset"])
+            setattr(v.parsed_record, f, rng.choice([0, 1, 255]) if not f.startswith("digi") and how in ("empty", "shorter", "prefix") else
+                    (rng.randrange(256) if f in ("bits_per_sample", "waveform_compression_type") else rng.randrange(1 << 32) if not f.startswith("digi") else rng.random() * 100))
+    elif n == "GeoKeyDirectoryVlr":
+        ks = v.geo_keys
+
+        def entry():
+            e = K.GeoKeyEntryStruct()
+            e.id, e.tiff_tag_location, e.count, e.value_offset = rng.randrange(65536), rng.choice([0, 34736, 34737]), rng.randrange(1, 5), rng.randrange(65536)
+            return e
+        if how == "empty":
+            v.geo_keys = []
+        elif how == "unrelated":
+            v.geo_keys = [entry() for _ in range(rng.choice([1, 3]))]
+        elif how == "longer" or not ks:
+            ks.append(entry())
+        elif how == "shorter":
+            ks.pop(rng.randrange(len(ks)))
+        elif how == "prefix":
+            del ks[len(ks) // 2:]
+        elif rng.random() < 0.5:
+            setattr(ks[rng.randrange(len(ks))], rng.choice(["id", "tiff_tag_location", "count", "value_offset"]), rng.randrange(65536))
+        else:
+            setattr(v.geo_keys_header, rng.choice(["key_directory_version", "key_revision", "minor_revision"]), rng.randrange(65536))
+        if rng.random() < 0.6:
+            v.geo_keys_header.number_of_keys = len(v.geo_keys)
+    elif n == "LasZipVlr":
+        v.record_data = edit_text(bytes(v.record_data), how, rng, bytes(range(256)))
+    else:
+        cls = id_class(sb(v.user_id), int(v.record_id))
+        if cls is None:
+            v.record_data = edit_text(bytes(v.record_data), how, rng, bytes(range(256)))
+        elif cls != "laszip":
+            # a record of a known type that was kept raw: another payload its parser refuses
+            v.record_data = known_record(rng, cls, "bad")[3]
+
+
+class _Lists:
+    """what holds a record list outside a file"""
+
+    def __init__(self, vlrs):
+        self.vlrs, self.evlrs = vlrs, None
+
+
+def state_of(cur):
+    st = {"vl": [snap(v) for v in cur.vlrs], "el": None if cur.evlrs is None else [snap(v) for v in cur.evlrs]}
+    if hasattr(cur, "header"):
+        st["dims"] = [str(x) for x in cur.header.point_format.extra_dimension_names]
+        st["pdims"] = [str(x) for x in cur.points.point_format.extra_dimension_names]
+        st["ver"] = str(cur.header.version)
+    return st
+
+
+def apply_op(cur, op):
+    """one operation on the LasData (or list holder) that was read -> the object the caller goes on with"""
+    import copy
+    import laspy
+    import numpy as np
+    from laspy.vlrs.vlrlist import VLRList
+    name = op[0]
+    if name == "add":
+        params = [laspy.ExtraBytesParams(nm, tp) for nm, tp in op[2]]
+        if op[1] == "one":
+            for p in params:
+                cur.add_extra_dim(p)
+        else:
+            cur.add_extra_dims(params)
+    elif name == "rem":
+        if op[1] == "one":
+            for nm in op[2]:
+                cur.remove_extra_dim(nm)
+        else:
+            cur.remove_extra_dims(list(op[2]))
+    elif name == "setvlrs":
+        how = op[1]
+        if how == "list":
+            cur.vlrs = list(cur.vlrs)
+        elif how == "vlrlist":
+            cur.vlrs = VLRList(cur.vlrs)
+        elif how == "same":
+            cur.vlrs = cur.vlrs
+        elif how == "tuple":
+            cur.header.vlrs = tuple(cur.vlrs)
+        elif how == "iter":
+            cur.header.vlrs = iter(list(cur.vlrs))
+        else:
+            cur.header.vlrs = cur.vlrs.copy()
+    elif name == "relist":
+        cur.vlrs = VLRList(list(cur.vlrs)) if op[1] == "new" else VLRList(cur.vlrs.copy())
+    elif name == "convert":
+        cur = laspy.convert(cur, point_format_id=op[1], file_version=op[2])
+    elif name in ("pf", "svpf"):
+        # the header is given a point format object of its own (an equal one); the caller goes on with a LasData whose
+        # points are laid out by that object, as laspy.convert does
+        if name == "pf":
+            cur.header.point_format = copy.deepcopy(cur.header.point_format)
+        else:
+            cur.header.set_version_and_point_format(cur.header.version, copy.deepcopy(cur.header.point_format))
+        cur = laspy.LasData(cur.header, laspy.PackedPointRecord.from_point_record(cur.points, cur.header.point_format))
+    elif name == "update_header":
+        cur.update_header()
+    elif name == "select":
+        n = len(cur.points)
+        cur = cur[np.ones(n, dtype=bool)] if op[1] == "mask" else cur[0:n] if op[1] == "slice" else cur[np.arange(n)]
+    elif name == "points":
+        cur.points = cur.points[0:len(cur.points)]
+    elif name == "newlas":
+        cur = laspy.LasData(cur.header, cur.points)
+    elif name == "hdrcopy":
+        cur = laspy.LasData(copy.deepcopy(cur.header), cur.points)
+    elif name == "edit":
+        l = cur.vlrs if op[1] == "v" else cur.evlrs
+        cand = [i for i, v in enumerate(l or []) if not (op[1] == "v" and hasattr(cur, "header") and type(v).__name__ == "ExtraBytesVlr")]
+        if cand:
+            edit_record(l[cand[op[2] % len(cand)]], op[3], op[4])
+    else:
+        raise ValueError("unknown operation " + name)
+    return cur
+
+
+def edited_index(prev, op):
+    """the position in the list the edit operation touches, given the list before it (None: nothing to edit)"""
+    l = prev["vl"] if op[1] == "v" else prev["el"]
+    cand = [i for i, s in enumerate(l or []) if not (op[1] == "v" and "dims" in prev and s["cls"] == "ExtraBytesVlr")]
+    return cand[op[2] % len(cand)] if cand else None
+
+
+def run_steps(cur, ops, res):
+    """the operations one after the other, the state of the lists after each -> what the caller goes on with (None: an
+    operation raised)"""
+    left = []
+    for k, op in enumerate(ops):
+        st = {"op": op}
+        res["steps"].append(st)
+        try:
+            new = apply_op(cur, op)
+        except Exception as ex:  # noqa
+            st["err"] = f"{common.exc_kind(ex)}: {type(ex).__name__}: {ex}"[:300]
+            return None
+        if new is not cur and op[0] in ("convert", "select", "hdrcopy"):
+            # the object the new one was made from (it got a header of its own) stays alive: what it holds now ...
+            left.append((k, cur, state_of(cur)))
+        cur = new
+        st.update(state_of(cur))
+    # ... and after everything that was done to the objects made from it
+    res["left"] = [{"op": k, "then": then, "now": state_of(obj)} for k, obj, then in left]
+    return cur
+
+
+def run_ops_append(case, res, data):
+    """the operations (edits of EVLRs) are applied to the public list of an append session on the file, a point is
+    appended, the session is closed"""
+    import laspy
+    buf = io.BytesIO(data)
+    try:
+        app = laspy.open(buf, mode="a", closefd=False)
+    except Exception as ex:  # noqa
+        res["g1"] = {"werr": common.exc_kind(ex), "werr_text": f"opening for append: {type(ex).__name__}: {ex}"[:200]}
+        return res
+    cur = _Lists(app.header.vlrs)
+    cur.evlrs = app.evlrs
+    if run_steps(cur, case["ops"], res) is None:
+        return res
+    try:
+        for c in case.get("chunks", [1]):
+            app.append_points(laspy.PackedPointRecord.zeros(c, app.header.point_format))
+        app.close()
+    except Exception as ex:  # noqa
+        res["g1"] = {"werr": common.exc_kind(ex), "werr_text": f"{type(ex).__name__}: {ex}"[:200]}
+        return res
+    res["g1"], _ = read_gen("write", buf.getvalue(), None, case.get("routes"), 1)
+    return res
+
+
+def run_ops(case):
+    """form = "file": the file is written, read by laspy.read, the operations are applied to what was read, and the
+    result is written by one of the ways of writing and read; form = "list": the same through VLRList.write_to / read_from.
+    -> {"g0": generation, "steps": [{"op", "vl", "el", "dims", "pdims"} | {"op", "err"}], "g1": generation | {"werr"}}"""
+    from laspy.vlrs.vlrlist import VLRList
+    res = {"steps": []}
+    if case["form"] == "list":
+        _PTYPES[0], _PTYPES[1] = False, 0
+        ext = case["ext"]
+        buf = io.BytesIO()
+        try:
+            mk_vlrs(case["recs"]).write_to(buf, as_extended=ext)
+        except Exception as ex:  # noqa
+            res["g0"] = {"werr": common.exc_kind(ex)}
+            return res
+        try:
+            cur = _Lists(VLRList.read_from(io.BytesIO(buf.getvalue()), len(case["recs"]), extended=ext))
+        except Exception as ex:  # noqa
+            res["g0"] = {"rerr": f"{common.exc_kind(ex)}: {type(ex).__name__}: {ex}"[:300]}
+            return res
+        res["g0"] = state_of(cur)
+    else:
+        las, evl = build_las(case)
+        try:
+            data = write_file("write", las, evl)
+        except Exception as ex:  # noqa
+            res["g0"] = {"werr": common.exc_kind(ex)}
+            return res
+        g, cur = read_gen("write", data)
+        res["g0"] = g
+        if cur is None:
+            return res
+        g.update(state_of(cur))
+    if case["form"] == "file" and case["via"] == "append":
+        return run_ops_append(case, res, data)
+    cur = run_steps(cur, case["ops"], res)
+    if cur is None:
+        return res
+    if case["form"] == "list":
+        buf = io.BytesIO()
+        try:
+            cur.vlrs.write_to(buf, as_extended=case["ext"])
+        except Exception as ex:  # noqa
+            res["g1"] = {"werr": common.exc_kind(ex)}
+            return res
+        try:
+            res["g1"] = state_of(_Lists(VLRList.read_from(io.BytesIO(buf.getvalue()), len(cur.vlrs), extended=case["ext"])))
+        except Exception as ex:  # noqa
+            res["g1"] = {"rerr": f"{common.exc_kind(ex)}: {type(ex).__name__}: {ex}"[:300]}
+        res["g1"]["bytes"] = buf.getvalue()
+        return res
+    via = case["via"]
+    try:
+        # (a writer of a file older than 1.4 is not handed a list it would refuse)
+        data1 = write_file(via, cur, cur.evlrs if is_writer_via(via) and str(cur.header.version) >= "1.4" else None)
+    except Exception as ex:  # noqa
+        res["g1"] = {"werr": common.exc_kind(ex), "werr_text": f"{type(ex).__name__}: {ex}"[:200]}
+        return res
+    res["g1"], _ = read_gen(via, data1, None, case.get("routes"), 1)
+    return res
+
+
+def said_key(s):
+    """what a record says, as the property compares it: identifiers, and the payload (raw) or the parsed content up to
+    the freedoms of the normal form (WKT: trailing NULs; GeoAscii: the text, however it is cut into strings;
+    GeoKeyDirectory: the count field is recomputed)"""
+    ids = (s["uid"], s["rid"], s["desc"])
+    if s["cls"] == "VLR":
+        return ("VLR",) + ids + (s["data"],)
+    c = s["content"]
+    if c[0] == "T":
+        body = common.unhex(c[1:]).rstrip(b"\0")
+    elif c[0] == "A":
+        body = b"\0".join(common.unhex(x) for x in c[1:].split(",")) if c[1:] != "-" else b""
+    elif c[0] == "G":
+        head, _, n, keys = c[1:].split("/")
+        body = (head, n, keys)
+    else:
+        body = c
+    return (s["cls"],) + ids + (c[0], body)
+
+
+def gen_dims(rng, k, taken=()):
+    out = []
+    while len(out) < k:
+        nm = "d%d_%s" % (len(taken) + len(out), rtext(rng, rng.choice([1, 3, 10]), NAME_CHARS).decode())
+        if nm not in taken and nm not in [x[0] for x in out]:
+            out.append([nm, rng.choice(EB_DIM_TYPES)])
+    return out
+
+
+def gen_op(rng, state, which_edit=None):
+    """one operation that is valid in the state {dims: names of the extra dimensions, ver, fmt, evl: the file has EVLRs};
+    the state is updated"""
+    dims = state["dims"]
+    r = rng.random()
+    if r < 0.2:
+        new = gen_dims(rng, rng.choice([1, 1, 2, 3]), dims)
+        dims.extend(x[0] for x in new)
+        return ["add", rng.choice(["one", "many"]), new]
+    if r < 0.32 and dims:
+        names = rng.sample(dims, rng.choice([1, 1, len(dims), rng.randrange(1, len(dims) + 1)]))
+        for nm in names:
+            dims.remove(nm)
+        return ["rem", rng.choice(["one", "many"]), names]
+    if r < 0.45:
+        return ["setvlrs", rng.choice(["list", "vlrlist", "same", "tuple", "iter", "copy"])]
+    if r < 0.55:
+        f = rng.choice([0, 1, 2, 3, 6, 7, 8])
+        auto = max(state["ver"], PREFERRED_VERSION[f])
+        explicit = rng.random() < 0.4
+        if explicit and state["ver"] == "1.4" and f <= 3 and rng.random() < 0.4:
+            auto = rng.choice(["1.2", "1.3"])      # a downgrade: the EVLRs cannot be kept
+            state["evl"] = False
+        state["ver"], state["fmt"] = auto, f
+        return ["convert", f, auto if explicit else None]
+    if r < 0.75:
+        return ["edit", which_edit or ("e" if state["evl"] and rng.random() < 0.5 else "v"), rng.randrange(64), rng.choice(EDIT_HOWS), rng.randrange(1 << 30)]
+    return [rng.choice(["pf", "svpf", "update_header", "points", "newlas", "hdrcopy"])] if r < 0.92 else ["select", rng.choice(["mask", "slice", "idx"])]
+
+
+def every_kind(rng, vlr_of_file=False):
+    """well-formed and malformed (kept raw) records of every known type, two of a kind next to each other, between
+    records of no known type"""
+    out = [unknown_record(rng, 3)]
+    for cls in ["extra", "lookup", "wave", "geokeys", "doubles", "ascii", "wkt", "wktmath", "laszip"]:
+        for kind in ("bad", "wf", "bad"):
+            if vlr_of_file and (cls == "laszip" or (cls == "extra" and kind == "wf")):
+                continue
+            if cls == "laszip" and kind == "bad":
+                continue
+            out.append(known_record(rng, cls, kind))
+        if rng.random() < 0.3:
+            out.append(nearmiss_record(rng))
+    out.append(unknown_record(rng, 0))
+    return out
+
+
+def gen_ops_cases(ctx):
+    rng = ctx.rng
+    cases = []
+    vias = list(WRITE_VIAS)
+    k = 0
+    # (1) every operation that re-synchronises or rebuilds the list x a file without / with extra dimensions, whose VLRs
+    #     and EVLRs hold well-formed and malformed records of every known type
+    single = ([["add", "one", None], ["add", "many", None], ["rem", "one", None], ["rem", "many", None]]
+              + [["setvlrs", h] for h in ("list", "vlrlist", "same", "tuple", "iter", "copy")]
+              + [["convert", 7, None], ["convert", 3, "1.4"], ["convert", 6, None], ["pf"], ["svpf"], ["update_header"], ["points"], ["newlas"], ["hdrcopy"]]
+              + [["select", h] for h in ("mask", "slice", "idx")])
+    for op in single:
+        for with_dims in (False, True):
+            if op[0] == "rem" and not with_dims:
+                continue
+            if not ctx.thorough() and op[0] in ("setvlrs", "select") and with_dims != (k % 2 == 0):
+                k += 1
+                continue
+            k += 1
+            vl = every_kind(rng, vlr_of_file=True)
+            dims = []
+            if with_dims:
+                p = eb_payload(rng)
+                vl.insert(rng.randrange(len(vl) + 1), (U_SPEC, 4, gen_desc(rng), p, "extra/wf"))
+                dims = eb_names(p)
+            op = list(op)
+            if op[0] == "add":
+                op[2] = gen_dims(rng, 2 if op[1] == "many" else 1, dims)
+            elif op[0] == "rem":
+                op[2] = list(dims) if op[1] == "many" else dims[:1]
+            ver = rng.choice(["1.4", "1.4", "1.2"]) if op[0] != "convert" else "1.4"
+            case = {"mode": "ops", "form": "file", "version": ver, "fmt": 3 if ver != "1.4" else rng.choice([3, 6]), "points": rng.choice([0, 2]),
+                    "recs": vl, "erecs": every_kind(rng) if ver == "1.4" else None, "via": vias[k % len(vias)], "ops": [op]}
+            cases.append(case)
+    # (3) every way of editing a parsed record of every known type (and the payload of a record kept raw), as VLR and
+    #     EVLR, through the list codec and in a file
+    k = 0
+    for cls in ["lookup", "extra", "wave", "geokeys", "doubles", "ascii", "wkt", "wktmath", "laszip"]:
+        for how in EDIT_HOWS + (["toolong"] if cls == "lookup" else []):
+            for kind in (("wf", "norm", "bad") if ctx.thorough() else ("wf", ["norm", "bad"][k % 2])):
+                k += 1
+                rec = known_record(rng, cls, kind)
+                if cls in ("wkt", "wktmath") and how == "rstrip" and kind != "bad":
+                    rec = (rec[0], rec[1], rec[2], rtext(rng, 20, NAME_CHARS) + rng.choice([b" ", b"\n", b"  \t"]) + (b"\0" if kind == "wf" else b""), rec[4])
+                seed = rng.randrange(1 << 30)
+                cases.append({"mode": "ops", "form": "list", "ext": k % 2 == 0, "recs": [unknown_record(rng, 2), rec, unknown_record(rng, 1)],
+                              "ops": [["edit", "v", 1, how, seed]]})
+                if k % 3 == 0 or ctx.thorough():
+                    in_e = cls in ("extra", "laszip") or k % 2 == 0
+                    cases.append({"mode": "ops", "form": "file", "version": "1.4", "fmt": 6, "points": 1,
+                                  "via": "append" if in_e and k % 4 == 0 else vias[k % len(vias)],
+                                  "recs": [unknown_record(rng, 2)] + ([] if in_e else [rec]), "erecs": [unknown_record(rng, 2)] + ([rec] if in_e else []),
+                                  "ops": [["edit", "e" if in_e else "v", 1, how, seed]]})
+    # a LasData made from another one (convert / selection / copied header), then edited: the source keeps its records
+    for op in (["convert", 7, None], ["select", "slice"], ["hdrcopy"]):
+        for which in ("v", "e"):
+            rec = known_record(rng, rng.choice(["wkt", "lookup", "ascii"]), "wf")
+            cases.append({"mode": "ops", "form": "file", "version": "1.4", "fmt": 6, "points": 2, "via": "write", "recs": [unknown_record(rng, 2), rec],
+                          "erecs": [unknown_record(rng, 2), rec], "ops": [op, ["edit", which, 1, rng.choice(["prefix", "unrelated", "longer"]), rng.randrange(1 << 30)]]})
+    # random sequences
+    for i in range(ctx.n(120, 1500)):
+        ver, fmt = rng.choice([("1.2", 0), ("1.2", 3), ("1.3", 1), ("1.4", 3), ("1.4", 6), ("1.4", 6), ("1.4", 7)])
+        vl = gen_list(rng, rng.choice([0, 1, 2, 3, 5, 8]), file_vlr="raw4")
+        evl = gen_list(rng, rng.choice([0, 1, 2, 3, 5])) if ver == "1.4" and rng.random() < 0.8 else None
+        dims = []
+        if rng.random() < 0.4:
+            p = eb_payload(rng)
+            vl.insert(rng.randrange(len(vl) + 1), (U_SPEC, 4, gen_desc(rng), p, "extra/wf"))
+            dims = eb_names(p)
+        state = {"dims": dims, "ver": ver, "fmt": fmt, "evl": evl is not None}
+        cases.append({"mode": "ops", "form": "file", "version": ver, "fmt": fmt, "points": rng.choice([0, 1, 4]), "recs": vl, "erecs": evl,
+                      "via": rng.choice(vias), "ops": [gen_op(rng, state) for _ in range(rng.choice([1, 1, 2, 3, 5]))],
+                      "routes": [1, rng.randrange(1 << 30)] if rng.random() < 0.3 else None})
+    for i in range(ctx.n(120, 1500)):
+        cases.append({"mode": "ops", "form": "list", "ext": rng.random() < 0.5, "recs": gen_list(rng, rng.choice([1, 2, 3, 5, 8])),
+                      "ops": [["relist", rng.choice(["new", "copy"])] if rng.random() < 0.15 else
+                              ["edit", "v", rng.randrange(64), rng.choice(EDIT_HOWS), rng.randrange(1 << 30)] for _ in range(rng.choice([1, 1, 2, 3]))]})
+    return cases
+
+
+def eb_names(payload):
+    """the names of the extra dimensions an extra-bytes payload describes"""
+    return [payload[i + 4:i + 36].rstrip(b"\0").decode("ascii") for i in range(0, len(payload), 192)]
+
+
 _RUNS = None
-MAX_FAILING_CASES = 10      # a misbehaving parser is reported from the first cases that show it; nothing is accumulated
+MAX_FAILING_CASES = 10     # a misbehaving parser is reported from the first cases that show it; nothing is accumulated
 MAX_SER = 1 << 22           # a serialisation larger than any payload generated here is not kept
 
 
@@ -1436,7 +2028,7 @@ def runs(ctx):
         bad = 0
         for case in gen_cases(ctx):
             try:
-                res = run_list(case) if case["mode"] == "list" else run_file(case)
+                res = run_case(case)
             except Exception as ex:  # noqa
                 import traceback
                 res = {"crash": f"{type(ex).__name__}: {ex}", "tb": traceback.format_exc()[-600:]}
@@ -1646,6 +2238,123 @@ def correspond_file(case, res, dis):
                 break
 
 
+def item_of_snap(x):
+    """what a user holds, as the model driver reads it: a raw record, or a parsed record saying its content"""
+    ids = [hx(x["uid"]), str(x["rid"]), hx(x["desc"])]
+    if x["cls"] == "VLR":
+        return ":".join(ids + [hx(x["data"])])
+    return "e" + ":".join([x["cls"]] + ids + [x["content"]])
+
+
+def snaps_tok(l):
+    return "|".join(snap_tok(x) for x in l) if l else "-"
+
+
+def correspond_ops(case, res, dis):
+    """every operation against header_op / set_content of the model (the list before it -> the list after it), and
+    what is written and read at the end against write_known / write_file_known + read"""
+    def add(kind, model, impl):
+        dis.append({"kind": "ops: " + kind, "input": case_json(case), "model": str(model)[:300], "impl": str(impl)[:300]})
+    isfile = case["form"] == "file"
+    g0 = res["g0"]
+    if "vl" not in g0:
+        return
+    cmds, what = [], []
+    prev = g0
+    for k, st in enumerate(res["steps"]):
+        if "err" in st:
+            add(f"operation refused by the implementation ({st['op'][0]})", "the model has no refusal here", st["err"])
+            return
+        op = st["op"]
+        if op[0] == "edit":
+            i = edited_index(prev, op)
+            l = st["vl"] if op[1] == "v" else st["el"]
+            if i is not None and l[i]["cls"] != "VLR":
+                cmds.append("edit " + item_of_snap(l[i]))
+                what.append(("edit", k, l[i]))
+        elif isfile:
+            ebs = [x for x in st["vl"] if x["cls"] == "ExtraBytesVlr"]
+            gen = item_of_snap(ebs[-1]) if ebs and st["dims"] else "none"
+            cmds.append(f"op {HEADER_METHOD[op[0]] or '-'} {'|'.join(item_of_snap(x) for x in prev['vl']) or '-'} {gen}")
+            what.append(("op", k, st))
+        prev = st
+    g1 = res.get("g1")
+    if g1 is not None:
+        if isfile:
+            ver = prev.get("ver", case["version"])
+            hs, v14 = HEADER_SIZES[ver], ver == "1.4"
+            handed = v14 and prev["el"] is not None and case["via"] != "writer-noevlrs"
+            etok = ('|'.join(item_of_snap(x) for x in prev['el']) or '-') if handed else 'none'
+            if case["via"] == "append":
+                p0 = g0["loc"][1] + g0["npts"]
+                newpts = g1["file0"][p0:p0 + g1["npts"] - g0["npts"]] if "file0" in g1 else b""
+                cmds.append(f"append {hs} {'T' if v14 else 'F'} {g0['loc'][0]} {g0['loc'][1]} {g0['loc'][2]} {g0['loc'][3]} {g0['npts']} "
+                            f"{hx(g0['file'][hs:])} {hx(newpts)} {etok}")
+            else:
+                cmds.append(f"file {hs} {'T' if v14 else 'F'} {g0['loc'][2]} {g0['loc'][3]} {'|'.join(item_of_snap(x) for x in prev['vl']) or '-'} "
+                            f"{g1.get('npts', 0)} {etok}")
+        else:
+            cmds.append(f"wk {'T' if case['ext'] else 'F'} {'|'.join(item_of_snap(x) for x in prev['vl']) or '-'}")
+        what.append(("write", None, prev))
+    for (kind, k, st), mo in zip(what, common.run_model(cmds, name="c08")):
+        if kind == "edit":
+            shown, again = mo.split(" ", 1)
+            if shown != snap_tok(st):
+                add(f"an edited {CLS_OF_NAME.get(st['cls'], st['cls'])} record does not serialise to what it says (operation {k})", shown, snap_tok(st))
+            continue
+        if kind == "op":
+            if mo != snaps_tok(st["vl"]):
+                ml, il = mo.split("|"), snaps_tok(st["vl"]).split("|")
+                j = next((i for i in range(min(len(ml), len(il))) if ml[i] != il[i]), min(len(ml), len(il)))
+                add(f"the VLR list after {st['op'][0]} differs (operation {k}, position {j}; {len(ml) if mo != '-' else 0} records in the model, {len(st['vl'])} in the implementation)",
+                    ml[j] if j < len(ml) else "<none>", il[j] if j < len(il) else "<none>")
+            continue
+        if not mo.startswith("ok "):
+            merr = mo.split()[1] if mo.startswith("err ") else mo
+            if g1.get("werr") != merr:
+                add("write refused by the model only" if "werr" not in g1 else "different write error", mo, g1.get("werr"))
+            continue
+        if "werr" in g1:
+            add("write refused by the implementation only", mo[:80], g1.get("werr_text", g1["werr"]))
+            continue
+        if "rerr" in g1:
+            add("written records cannot be read", mo[:80], g1["rerr"])
+            continue
+        if not isfile:
+            _, mbytes, mrecs = mo.split(" ")
+            if common.unhex(mbytes) != g1["bytes"]:
+                add("bytes written after the operations differ", f"first difference at {first_diff(common.unhex(mbytes), g1['bytes'])}: {mbytes[:160]}", hx(g1["bytes"])[:160])
+            elif mrecs != snaps_tok(g1["vl"]):
+                add("records read after the operations differ", mrecs, snaps_tok(g1["vl"]))
+            continue
+        data = g1["file0"]
+        if case["via"] == "append":
+            _, nvlr, off, nev, est, body, vrecs, erecs = mo.split(" ")
+            body = common.unhex(body)
+            vb, eb, blen = body[:int(off) - hs], (body[int(est) - hs:] if int(nev) else b""), len(body)
+            if data[hs:] != body:
+                add("the file left by the append session after the edits is not the model's", f"first difference at {hs + first_diff(body, data[hs:])}", f"{len(data)} bytes")
+                continue
+        else:
+            _, nvlr, off, nev, est, blen, vb, eb, vrecs, erecs = mo.split(" ")
+            vb, eb = common.unhex(vb), common.unhex(eb)
+        mloc = [int(nvlr), int(off), int(nev), int(est)]
+        if g1["hs"] != hs or g1["loc0"] != mloc:
+            add("header fields that locate the records differ after the operations", mloc, g1["loc0"])
+        elif data[hs:hs + len(vb)] != vb:
+            add("VLR bytes written after the operations are not the model's", f"first difference at {hs + first_diff(vb, data[hs:hs + len(vb)])}", hx(data[hs:hs + len(vb)])[:160])
+        elif len(data) != hs + int(blen) or (mloc[2] and data[mloc[3]:] != eb):
+            add("EVLR bytes written after the operations are not the model's", f"{hs + int(blen)} bytes", f"{len(data)} bytes")
+        else:
+            for where, mrecs, snaps in (("vlrs", vrecs, g1["vl"]), ("evlrs", erecs, g1["el"])):
+                irecs = "none" if snaps is None else snaps_tok(snaps)
+                if irecs != mrecs:
+                    ml, il = mrecs.split("|"), irecs.split("|")
+                    j = next((i for i in range(min(len(ml), len(il))) if ml[i] != il[i]), min(len(ml), len(il)))
+                    add(f"{where}: record read back after the operations differs", ml[j] if j < len(ml) else "<none>", il[j] if j < len(il) else "<none>")
+                    break
+
+
 def correspond(ctx):
     ctx.extra["rule"] = (
         "record lists of 0..20 records (known classes 60%: well-formed / normalisable / malformed payloads of classification lookup, "
@@ -1670,7 +2379,18 @@ def correspond(ctx):
         "other ways of opening: bytes, path, pathlib, file object, laspy.open / LasReader with EVLRs at opening or deferred "
         "(read(), after chunk_iterator, after read_points, after seek, read_evlrs()), LasHeader.read_from, mmap, non-seekable "
         "and read()-only sources; all in one process; plus the dispatch of (user id, record id) pairs and serialisation of "
-        "user-built lookups. non-trivial = two or more records, or a known-class record, or a full-width id/description, or a "
+        "user-built lookups; plus OPERATIONS between reading and writing (mode ops): files (1.2-1.4, with / without extra "
+        "dimensions) whose VLRs and EVLRs hold well-formed and malformed (kept raw) records of every known type, incl. raw "
+        "LASF_Spec/4 records and two of a kind adjacent, read, then 1..5 of: add / remove extra dimensions (one by one / at once), "
+        "las.vlrs = list / VLRList / the same object / header.vlrs = tuple / iterator / copy, laspy.convert (other format, "
+        "explicit version, downgrade), header.point_format = , set_version_and_point_format, update_header, las[mask / slice / "
+        "indices], las.points = , LasData on the same / a deep-copied header, and edits of the content of a parsed record "
+        "through its public attributes (.string / .strings / .lookups / .doubles / .geo_keys(+header) / .parsed_record / "
+        ".extra_bytes_structs / .record_data: shorter, longer, proper prefix of the old value, empty, unrelated, same length, "
+        "stripped, entries appended / removed, one over-long lookup name), then written by one of the 13 ways or left by an "
+        "append session, and read; the same edits through VLRList.read_from / write_to (VLR and EVLR form); dedicated cases: "
+        "every operation x file without / with extra dimensions, every class x every edit x well-formed / normalisable / "
+        "malformed payload. non-trivial = two or more records, or a known-class record, or a full-width id/description, or a "
         "payload at the length limit, or a history with edits / append sessions / a layout; distinct by (placement, records, "
         "history incl. ways of writing, chunks, layout)")
     dis = []
@@ -1688,11 +2408,27 @@ def correspond(ctx):
         special = case["mode"] == "file" and (bool(case.get("spread")) or any(st["via"] in ("append", "convert") or st.get("spread") for st in steps_of(case)))
         ctx.case((case["mode"], case.get("ext"), case.get("version"), case.get("via"), [(u, r, d, len(p), hash(p), t) for u, r, d, p, t in allrecs],
                   repr([case.get("spread"), case.get("make"), case.get("ptypes")]
-                       + [(st["via"], st.get("chunks"), st.get("open"), st.get("end"), st.get("to"), st.get("spread"), [(ed[0], ed[1], len(ed)) for ed in st["edits"]]) for st in steps_of(case)]) if case["mode"] == "file" else None),
-                 nontrivial=nontrivial(allrecs) or bool(edits) or special,
+                       + [(st["via"], st.get("chunks"), st.get("open"), st.get("end"), st.get("to"), st.get("spread"), [(ed[0], ed[1], len(ed)) for ed in st["edits"]]) for st in steps_of(case)]) if case["mode"] == "file" else repr(case.get("ops"))),
+                 nontrivial=nontrivial(allrecs) or bool(edits) or special or case["mode"] == "ops",
                  sample={"mode": case["mode"], "records": [[u.decode(), r, d.decode(), len(p), t] for u, r, d, p, t in allrecs[:4]],
-                         "history": [[st["via"]] + [ed[0] + ":" + ed[1] for ed in st["edits"]] for st in steps_of(case)] if case["mode"] == "file" else None})
-        ctx.count(f"{case['mode']}:{'evlr' if case.get('ext') else 'vlr'}" if case["mode"] == "list" else f"file:{case['version']}:{case['via']}")
+                         "history": [[st["via"]] + [ed[0] + ":" + ed[1] for ed in st["edits"]] for st in steps_of(case)] if case["mode"] == "file" else case.get("ops")})
+        if case["mode"] == "ops":
+            ctx.count(f"ops:{case['form']}:" + (case["via"] if case["form"] == "file" else ("evlr" if case["ext"] else "vlr")))
+            for op in case["ops"]:
+                ctx.count("operation between read and write: " + op[0] + (":" + op[1] if op[0] in ("add", "rem", "setvlrs", "select", "relist") else ""))
+                if op[0] == "edit":
+                    ctx.count("edit of a record's content: " + op[3])
+            for st, before in zip(res.get("steps", []), [res.get("g0")] + res.get("steps", [])):
+                if st["op"][0] == "edit" and "vl" in before:
+                    i = edited_index(before, st["op"])
+                    if i is not None:
+                        ctx.count("edited record: " + CLS_OF_NAME.get((before["vl"] if st["op"][1] == "v" else before["el"])[i]["cls"], "?"))
+            if case["form"] == "file" and any(r[4] == "extra/bad" for r in case["recs"]):
+                ctx.count("ops: file VLRs hold a LASF_Spec/4 record kept raw")
+            if case["form"] == "file" and any(r[4] == "extra/wf" for r in case["recs"]):
+                ctx.count("ops: file with extra dimensions")
+        else:
+            ctx.count(f"{case['mode']}:{'evlr' if case.get('ext') else 'vlr'}" if case["mode"] == "list" else f"file:{case['version']}:{case['via']}")
         for rec in allrecs:
             ctx.count("record:" + rec[4])
         ctx.count(f"list length {len(allrecs) if len(allrecs) < 5 else '5+'}")
@@ -1721,6 +2457,8 @@ def correspond(ctx):
         if case["mode"] == "list":
             compare_list("list", case["recs"], case["ext"], outs[idx], res.get("werr"), res.get("gen1"), res.get("w2err"), res.get("gen2"),
                          res.get("bytes"), res.get("bytes2"), case, dis)
+        elif case["mode"] == "ops":
+            correspond_ops(case, res, dis)
         else:
             correspond_file(case, res, dis)
     dis += correspond_dispatch(ctx)
@@ -1871,10 +2609,148 @@ def oracle(case, res):
     if case["mode"] == "list":
         return check_list("evlr list" if case["ext"] else "vlr list", case["recs"], None if case["ext"] else 65535,
                           res.get("werr"), res.get("gen1"), res.get("w2err"), res.get("gen2"), res.get("partial"))
+    if case["mode"] == "ops":
+        return oracle_ops(case, res)
     return oracle_file(case, res)
 
 
-FINDING_PREFIXES = ("nonseekable-evlr-gap:", "append-resized-vlr:")
+def expected_dims(dims, op):
+    if op[0] == "add":
+        return dims + [x[0] for x in op[2]]
+    if op[0] == "rem":
+        return [d for d in dims if d not in op[2]]
+    return dims
+
+
+def brief(s):
+    return snap_tok(s)[:70]
+
+
+def shown(z):
+    return None if z is None else (z["cls"] + " " + (hx(z["data"]) if z["cls"] == "VLR" else z["content"]))[:160]
+
+
+def oracle_ops(case, res):
+    """what was read goes through operations that do not concern the records (or that edit one of them) and is written:
+    after every operation the lists hold the other records verbatim and in order (the record that describes the extra
+    dimensions is the file machinery's: one, iff there are extra dimensions, naming them); the file written holds what
+    the records say then"""
+    isfile = case["form"] == "file"
+    g0 = res["g0"]
+    if "werr" in g0:
+        return [("ops: well-formed record lists refused", f"write raised {g0['werr']}")]
+    if "rerr" in g0:
+        return [("ops: what was written cannot be read back", g0["rerr"])]
+    lim = 65535 if isfile or not case["ext"] else None
+    found = check_list("file vlrs" if isfile else ("evlr list" if case["ext"] else "vlr list"), case["recs"], lim, None, g0["vl"], None, None, final=False)
+    if isfile and case["erecs"] is not None:
+        found += check_list("file evlrs", case["erecs"], None, None, g0["el"], None, None, final=False)
+    if found:
+        return found
+    prev, dims = g0, list(g0.get("dims", []))
+    el_ref, lost = g0["el"], False
+    for k, st in enumerate(res["steps"]):
+        op = st["op"]
+        name = op[0] + (":" + str(op[1]) if op[0] in ("add", "rem", "setvlrs", "select", "relist") else "")
+        at = f"operation {k} {op[:4]}"
+        if "err" in st:
+            return [(f"ops: {name}: an operation on what was read is refused", f"{at}: {st['err']}")]
+        idx = edited_index(prev, op) if op[0] == "edit" else None
+        for which, key in (("v", "vl"), ("e", "el")):
+            a, b = prev[key], st[key]
+            if key == "el":
+                # a version older than 1.4 cannot hold EVLRs in a file ("they will be lost"): whatever list lingers in
+                # memory meanwhile is not judged; back at 1.4 the list is the old one, or none
+                a = el_ref
+                if st.get("ver", "1.4") < "1.4":
+                    lost = True
+                    continue
+                if lost:
+                    if b not in (None, [], el_ref):
+                        return [("ops: convert: EVLRs that were never attached appear", f"{at}: {len(b)} records")]
+                    lost, el_ref = False, b
+                    continue
+                el_ref = b
+            if a is None and b is None:
+                continue
+            if a is None or b is None:
+                return [(f"ops: {name}: the {key[0].upper()}LR list appeared or disappeared", f"{at}: {None if a is None else len(a)} records -> {None if b is None else len(b)}")]
+            ia = [(i, x) for i, x in enumerate(a) if not (isfile and key == "vl" and x["cls"] == "ExtraBytesVlr")]
+            ib = [(i, x) for i, x in enumerate(b) if not (isfile and key == "vl" and x["cls"] == "ExtraBytesVlr")]
+            listname = "VLR" if key == "vl" else "EVLR"
+            if len(ia) != len(ib):
+                gone = [brief(x) for _, x in ia if x not in [y for _, y in ib]]
+                return [(f"ops: {name}: records it does not concern were removed from (or added to) the {listname} list",
+                         f"{at}: {len(ia)} records before, {len(ib)} after; missing: {gone[:3]}")]
+            for (i, x), (_, y) in zip(ia, ib):
+                if op[0] == "edit" and op[1] == which and i == idx:
+                    if (x["cls"], x["uid"], x["rid"], x["desc"]) != (y["cls"], y["uid"], y["rid"], y["desc"]):
+                        return [("ops: edit: editing the content of a record changed its class, identifiers or description", f"{at}: {brief(x)} -> {brief(y)}")]
+                elif x != y:
+                    return [(f"ops: {name}: a record it does not concern is not kept verbatim and in order in the {listname} list",
+                             f"{at}: position {i}: {brief(x)} -> {brief(y)}")]
+        if isfile and "dims" in st:
+            dims = expected_dims(dims, op)
+            ebs = [x for x in st["vl"] if x["cls"] == "ExtraBytesVlr"]
+            names = [eb_names(common.unhex(x["content"].split("/", 1)[1])) for x in ebs]
+            if st["dims"] != dims or st["pdims"] != dims:
+                return [(f"ops: {name}: the extra dimensions are not the ones expected", f"{at}: header {st['dims']}, points {st['pdims']}, expected {dims}")]
+            if names != ([dims] if dims else []):
+                return [(f"ops: {name}: the extra-bytes record does not describe the extra dimensions", f"{at}: records naming {names}, dimensions {dims}")]
+        prev = st
+    for lf in res.get("left", []):
+        for key in ("vl", "el"):
+            if lf["then"][key] != lf["now"][key]:
+                a, b = lf["then"][key] or [], lf["now"][key] or []
+                j = next((i for i in range(min(len(a), len(b))) if a[i] != b[i]), min(len(a), len(b)))
+                made_by = res["steps"][lf["op"]]["op"][0]
+                kind = ("convert-shares-evlrs: laspy.convert gives the converted LasData the EVLR record objects of its source (the VLRs are copies): editing one edits the other"
+                        if made_by == "convert" and key == "el" else
+                        "ops: operations on a converted / selected / copied LasData changed the records of the LasData it was made from")
+                return [(kind,
+                         f"made by operation {lf['op']} {res['steps'][lf['op']]['op'][:3]}; {'VLR' if key == 'vl' else 'EVLR'} list of the source then {len(a)} records, now {len(b)}; "
+                         f"position {j}: {shown(a[j] if j < len(a) else None)} -> {shown(b[j] if j < len(b) else None)}; operations {[o['op'][:4] for o in res['steps']]}")]
+    g1 = res.get("g1")
+    if g1 is None:
+        return []
+    long_name = any(x["cls"] == "ClassificationLookupVlr" and any(len(e.split("=")[1]) > 31 for e in x["content"][1:].split(",") if "=" in e)
+                    for x in (prev["vl"] + (prev["el"] or [])))
+    if "werr" in g1:
+        if long_name and g1["werr"] == "EValue":
+            return []
+        return [("ops: what was read and operated on cannot be written", f"write ({case.get('via', 'write_to')}) raised {g1.get('werr_text', g1['werr'])}")]
+    if long_name:
+        x = next(x for x in (prev["vl"] + (prev["el"] or [])) if x["cls"] == "ClassificationLookupVlr")
+        y = next((y for y in (g1.get("vl", []) + (g1.get("el") or [])) if y["cls"] == "ClassificationLookupVlr"), None)
+        return [("ops: a lookup name longer than its 15-byte field was not refused",
+                 f"the record says {x['content'][:120]}; written without an error; the file reads {y['content'][:120] if y else '?'}")]
+    if "rerr" in g1:
+        return [("ops: what was written after the operations cannot be read back", g1["rerr"])]
+    want_e = prev["el"]
+    if isfile:
+        v14 = prev.get("ver", case["version"]) == "1.4"
+        want_e = None if not v14 else [] if (want_e is None or case["via"] == "writer-noevlrs") else want_e
+    edited = {(op[1], edited_index(p, op)) for p, op in zip([g0] + res["steps"], [st["op"] for st in res["steps"]]) if op[0] == "edit"}
+    for which, want, got in (("v", prev["vl"], g1["vl"]), ("e", want_e, g1["el"])):
+        listname = "VLR" if which == "v" else "EVLR"
+        if want is None or got is None:
+            if want is not got:
+                return [(f"ops: the file written has {'an' if got is not None else 'no'} {listname} list", f"{None if want is None else len(want)} attached, {None if got is None else len(got)} read")]
+            continue
+        if len(want) != len(got):
+            return [(f"ops: the file written does not hold the {listname}s that were attached (number of records)", f"{len(want)} attached, {len(got)} read")]
+        for i, (x, y) in enumerate(zip(want, got)):
+            if said_key(x) != said_key(y):
+                cls = CLS_OF_NAME.get(x["cls"], x["cls"])
+                kind = (f"ops: the file written does not hold what the edited {cls} record says" if (which, i) in edited
+                        else f"ops: the file written does not hold the {listname}s as they were after the operations")
+                return [(kind, f"{listname} {i} ({hx(x['uid'])}/{x['rid']}): the record says {shown(x)}, the file reads {shown(y)}; operations {[o['op'][:4] for o in res['steps']]}")]
+    if isfile:
+        return check_routes(g1, "after the operations")
+    return []
+
+
+FINDING_PREFIXES = ("nonseekable-evlr-gap:", "append-resized-vlr:", "convert-shares-evlrs:")
 
 
 def vlr_room_changes(g):
@@ -2058,7 +2934,7 @@ def search(ctx, seeds):
 
 
 def run_case(case):
-    return run_list(case) if case["mode"] == "list" else run_file(case)
+    return run_list(case) if case["mode"] == "list" else run_ops(case) if case["mode"] == "ops" else run_file(case)
 
 
 def minimise(case, kind):
@@ -2085,6 +2961,18 @@ def minimise(case, kind):
                 cur = cand
             else:
                 i += 1
+    if cur.get("mode") == "ops":
+        i = 0
+        while i < len(cur["ops"]) and len(cur["ops"]) > 1:
+            cand = dict(cur, ops=cur["ops"][:i] + cur["ops"][i + 1:])
+            if still(cand):
+                cur = cand
+            else:
+                i += 1
+        if cur.get("via") not in (None, "write"):
+            cand = dict(cur, via="write")
+            if still(cand):
+                cur = cand
     if "steps" in cur:
         # shorter history: drop trailing generations, then single edits
         while len(cur["steps"]) > 0:
